@@ -624,5 +624,42 @@ class C17(Prop):
             out.append((gen_dummy_line(rng), "search-dummy"))
         return out
 
+    def independent_interfaces(self):
+        """write padding is a property of ONE interface object: several interface objects alive in one process, configured
+        differently and used alternately (a padding stored in a shared default object would leak from one to the other)"""
+        out = []
+        logs = [[], [], []]
+        intfs = [mk_intf(l) for l in logs]
+        req = bytes.fromhex("5507000501889c")
+        script = [(0, 16), (1, None), (2, 5), (0, None), (1, 3), (2, None), (0, 0), (1, None), (2, None), (0, None)]
+        want = [0, 0, 0]        # paddings as configured so far (a fresh interface has none)
+        for k, p in script:
+            if p is not None:
+                intfs[k].write_padding = p
+                want[k] = p
+            n0 = len(logs[k])
+            intfs[k].write(req)
+            got = logs[k][n0:]
+            exp = req + bytes((-len(req)) % want[k] if want[k] else 0)
+            if got != [exp]:
+                out.append({"key": "align-independent-interfaces", "case": f"three interface objects, script {script}",
+                            "what": f"interface {k} (its own write padding: {want[k]}; the others': {want}) wrote a 7-byte request",
+                            "expected": exp.hex(), "observed": ",".join(x.hex() for x in got)})
+                break
+            if any(len(logs[j]) != n for j, n in enumerate([len(l) for l in logs]) if False):
+                pass
+        return out
+
+    def extra_checks(self, rng, tier, ev):
+        v = self.independent_interfaces()
+        ev["coverage"]["independent_interface_objects"] = 3
+        return v
+
+    def replay(self, obj):
+        if str(obj.get("case", "")).startswith("three interface objects"):
+            vs = self.independent_interfaces()
+            return vs[0] if vs else None
+        return super().replay(obj)
+
 
 PROP = C17()
